@@ -2198,10 +2198,14 @@ pub(crate) fn skip_attributes<R: Reader>(
                     skip_bytes = input.read_u16().map(R::Offset::from_u16)?;
                 }
                 constants::DW_FORM_block4 => {
-                    skip_bytes = input.read_u32().map(R::Offset::from_u32)?;
+                    // Skip now: this length can be close to the maximum offset, so it
+                    // must not be accumulated with the sizes of following attributes.
+                    let len = input.read_u32().map(R::Offset::from_u32)?;
+                    input.skip(len)?;
                 }
                 constants::DW_FORM_block | constants::DW_FORM_exprloc => {
-                    skip_bytes = input.read_uleb128().and_then(R::Offset::from_u64)?;
+                    let len = input.read_uleb128().and_then(R::Offset::from_u64)?;
+                    input.skip(len)?;
                 }
                 constants::DW_FORM_string => {
                     let _ = input.read_null_terminated_slice()?;
